@@ -587,3 +587,22 @@ def _uniq(xs):
             seen.add(x.fq)
             out.append(x)
     return out
+
+
+def alias_names(fn: Func, name: str) -> Set[str]:
+    """Names connected to `name` by plain `a = b` assignments in fn (flow-insensitive)."""
+    sc = scope_of(fn)
+    out = {name}
+    changed = True
+    while changed:
+        changed = False
+        for nm, defs in sc.defs.items():
+            for d in defs:
+                if d.kind == "assign" and isinstance(d.value, ast.Name):
+                    if nm in out and d.value.id not in out:
+                        out.add(d.value.id)
+                        changed = True
+                    if d.value.id in out and nm not in out:
+                        out.add(nm)
+                        changed = True
+    return out
